@@ -3,6 +3,9 @@
 Each function states the *assumed contract* of the dependency: its result as an abstract function of its arguments
 and its raise-set.  The raise-sets are sampled against the real library by drivers/stub_conformance.py.
 """
+import binascii
+import json
+import struct
 
 
 def str_decode(data, encoding="utf-8", errors="strict"):
@@ -19,3 +22,95 @@ def str_encode(self, encoding="utf-8", errors="strict"):
     if not fn("E_ok", "bool", self):
         raise UnicodeEncodeError
     return fn("E_val", "bytes", self)
+
+
+class JSONDecoder:
+    """json.JSONDecoder: decode(str) returns a document or raises JSONDecodeError; deeply nested input makes the
+    pure-Python/C scanner raise RecursionError (observed on CPython 3.12: b'[' * 100000)."""
+
+    def decode(self, document):
+        if not fn("J_ok", "bool", document):  # J_ok: "decode() returns a value"
+            if nondet_bool():
+                raise RecursionError
+            raise json.JSONDecodeError
+        return fn("J_val", "obj", document)
+
+
+class JSONEncoder:
+    def encode(self, packet):
+        return fn("J_enc", "obj", packet)
+
+
+class Struct:
+    """struct.Struct: unpack(buffer) returns a tuple or raises struct.error (wrong size / bad value)."""
+
+    def unpack(self, data):
+        b = bytes(data)
+        if not fn("St_ok", "bool", b):
+            raise struct.error
+        return fn("St_val", "obj", b)
+
+    def pack(self, *values):
+        raise_if = nondet_bool()
+        if raise_if:
+            raise struct.error
+        return nondet_bytes()
+
+
+class BytesIO:
+    """io.BytesIO restricted to what the serializers use: sequential read of the initial bytes."""
+
+    def __init__(self, initial=b""):
+        self.data = bytes(initial)
+        self.pos = 0
+
+    def __enter__(self):
+        return self
+
+    def __exit__(self, et, ev, tb):
+        return False
+
+    def read(self):
+        r = self.data[self.pos:]
+        self.pos = len(self.data)
+        return r
+
+    def getvalue(self):
+        return self.data
+
+
+class Unpickler:
+    """pickle.Unpickler(file).load(): arbitrary byte code interpreter — may raise any Exception; consumes some prefix."""
+
+    def __init__(self, file):
+        self.file = file
+
+    def load(self):
+        if nondet_bool():
+            raise_any(Exception)
+        n = nondet_int()
+        assume(0 <= n and n <= len(self.file.data) - self.file.pos)
+        self.file.pos = self.file.pos + n
+        return nondet_obj()
+
+
+def b64decode(data):
+    """base64.standard_b64decode / urlsafe_b64decode on bytes: binascii.Error on malformed input."""
+    b = bytes(data)
+    if not fn("B64_ok", "bool", b):
+        raise binascii.Error
+    return fn("B64_val", "bytes", b)
+
+
+def b64encode(data):
+    return fn("B64_enc", "bytes", bytes(data))
+
+
+def checksum_fn(data):
+    r = fn("H", "bytes", bytes(data))
+    assume(len(r) == 32)
+    return r
+
+
+def compare_digest(a, b):
+    return bytes(a) == bytes(b)
